@@ -5,4 +5,6 @@ CONSTANTS
   Scenarios <- ScnNoCursor
   Focus = "startup"
 INVARIANT GenInv
+INVARIANT TxnLockAgree
+INVARIANT DoneMeansCommitted
 CHECK_DEADLOCK FALSE
